@@ -1347,3 +1347,22 @@ def stream_constant_vars(rng):
         stmts.append(["var", "w0", _F(["e", ["var", names[0]]], ["t", "-"], ["e", ["attr", ["var", "A"], "id"]])])
         stmts.append(["obj", _T("C", None, False, [("h", _F(["e", ["var", "w0"]]))])])
     return {"version": rng.choice([2, 3]), "options": [], "stmts": stmts}, ["var_top", "constant_vars", "formula"]
+
+
+def stream_once_holds_forward_ref(rng):
+    """a just_once row holds a FORWARD reference (the referenced template comes later in the recipe) in a
+    visible or hidden field; later templates read the row and the held reference (dotted reference,
+    `.id`) in every iteration of ONE run (such a row cannot be written to a continuation file: findings
+    K1 / K2).  The held reference denotes the same row in every iteration."""
+    hf = rng.choice(["lead", "lead", "__lead"])
+    target = rng.choice(["B", "bb"])
+    once = _T("J", "jj", True, [("f0", ["int", 4]), (hf, ["ref", target])])
+    b = _T("B", "bb", False, [("f1", ["int", 2])], count=rng.choice([None, ["int", 2]]))
+    fields = [("r", ["ref", "jj"]), ("x", ["ref", "jj." + hf]), ("v", _F(["e", ["attr", ["var", "jj"], "f0"]]))]
+    if rng.random() < 0.6:
+        fields.append(("i", _F(["e", ["attr", ["attr", ["var", "jj"], hf], "id"]])))
+    stmts = [["obj", once], ["obj", b], ["obj", _T("C", None, False, fields)]]
+    if rng.random() < 0.3:
+        stmts.insert(0, ["obj", _T("A", None, False, [("f0", ["int", 1])])])
+    return {"version": rng.choice([2, 3]), "options": [], "stmts": stmts, "single_run": True}, \
+        ["just_once", "forward_ref", "nick", "once_holds_forward_ref"] + (["hidden_field"] if hf.startswith("__") else [])
